@@ -359,7 +359,10 @@ private theorem visitM_bracket (T : Table) (v : Visitor σ) (hv : IdPreserving v
     skipped), whatever its state: the calls of a completed visit are `enter t` alone, or `enter t`, then a
     well-bracketed sequence (every `leave` closes the innermost open `enter` of the same node, a deleted or
     skipped node has an `enter` only), then `leave` of the returned node: parents are entered before and left
-    after their children. -/
+    after their children.
+    WEAKER THAN IT READS: `Forest.lone` admits an unmatched `enter` for ANY node; the statement that ties an unmatched `enter`
+    to a deletion / skip of that node (and says that a kept or replaced node IS left) is `balanced_strict`
+    (Props/C18_balanced.lean), of which this is the corollary `ForestV.forest`. -/
 theorem balanced (T : Table) (v : Visitor σ) (hv : IdPreserving v) (fuel : Nat) (t : Node) (s : σ) (o : Out σ)
     (h : visit T v fuel t s = .ok o) : Bracket t o ∧ Forest o.tr := by
   unfold visit at h
